@@ -27,8 +27,11 @@ Inductive variant := Orig | Fixed.
 Definition wait_cond (v : variant) (cur end_ : Z) : bool :=
   match v with Orig => cur =? end_ | Fixed => cur >=? end_ end.
 
-(* NewScanner: the default matcher is stored into the Scanner (Fixed) or into the local copy (Orig) *)
+(* which genRanges the current source has (pending_fixes/C16-1 applied = Fixed) *)
 Definition the_code : variant := Fixed.
+(* NewScanner: the default matcher is stored into the Scanner (Fixed, pending_fixes/C16-2) or
+   into the by-value parameter (Orig) *)
+Definition the_scanner_code : variant := Fixed.
 
 (* ------------------------------------------------------------------ range generator, sequentially *)
 
@@ -78,7 +81,8 @@ Definition flatten (bs : list batch) : list (Z * entry) :=
 (* ------------------------------------------------------------------ the concurrent system *)
 
 Record config := {
-  c_variant : variant;
+  c_variant : variant;    (* genRanges before / after pending_fixes/C16-1 *)
+  c_svariant : variant;   (* NewScanner before / after pending_fixes/C16-2 *)
   c_batch : Z;            (* FetcherOptions.BatchSize *)
   c_workers : nat;        (* FetcherOptions.ParallelFetch *)
   c_start : Z;            (* FetcherOptions.StartIndex *)
@@ -321,7 +325,7 @@ Definition sstep (cfg : config) (mk : mkind) (po : bool) (s : sstate) (l : slabe
       match nth_error (pool s) k with
       | None => None
       | Some ie => Some {| fs := fs s; pool := remove_nth (pool s) k;
-                           found := found s ++ found_of (c_variant cfg) mk po ie;
+                           found := found s ++ found_of (c_svariant cfg) mk po ie;
                            processed := processed s + 1 |}
       end
   end.
